@@ -621,6 +621,9 @@ Lemma check_expired_fields now st :
   p_error (check_expired now st) = p_error st.
 Proof. unfold check_expired. destruct (_ && _); cbn; auto. Qed.
 
+Lemma check_expired_unrep now st : p_unreported (check_expired now st) = p_unreported st.
+Proof. unfold check_expired. destruct (_ && _); cbn; auto. Qed.
+
 (* the initial entry *)
 Lemma sel_inv_init now mb :
   sel_inv {| ss_sources := written; ss_cursors := repeat 0 (count_recv written);
@@ -705,22 +708,24 @@ Qed.
 
 (* a step that parks a runnable, live process inside its select *)
 Lemma park_entry now st st' s :
-  Inv st -> active now st s -> step now st = Val st' -> p_queued st' = false -> p_error st' = None ->
+  Inv st -> active now st s -> p_unreported st = [] ->
+  step now st = Val st' -> p_queued st' = false -> p_error st' = None ->
   exists s', p_sel st' = Some s' /\ p_selecting st' = true /\
     p_mailbox st' = p_mailbox st /\ p_awaiting st' = p_awaiting st /\
     sel_inv s' (p_mailbox st) /\ ss_start s' = Some (start_of s now) /\ all_at_end s' (p_mailbox st) /\
     (forall d, In (SrcTimeout d) written -> timeout_ready d (start_of s now) now = false) /\
     (forall p v, In (SrcProc p) written -> aw_get p (p_awaiting st) <> Some (Some v)).
 Proof.
-  intros HI (Hq & Herr & Hval & Hsel) Hstep Hq' He'.
+  intros HI (Hq & Herr & Hval & Hsel) Hun Hstep Hq' He'.
   destruct (check_expired_fields now st) as (Fmb & Faw & Fsel & Fval & Ferr).
+  pose proof (check_expired_unrep now st) as Fun.
   assert (Hinv : sel_inv s (p_mailbox st)) by (apply HI; auto).
   assert (Hne : forall r m e, ss_receiving s = Some (r, m) -> verdict_of r m <> VdErr e).
   { intros r m e Hr Hvd. unfold Select.step in Hstep.
     rewrite Hq, Ferr, Herr, Fval, Hval, Fsel, Hsel, Hr, Hvd in Hstep. cbn [negb] in Hstep.
     inversion Hstep; subst. cbn in He'. discriminate. }
   pose proof (pass_park s (p_mailbox st) (p_awaiting st) now) as HP. cbv zeta in HP.
-  unfold Select.step in Hstep. rewrite Hq, Ferr, Herr, Fval, Hval, Fsel, Hsel in Hstep. cbn [negb] in Hstep.
+  unfold Select.step in Hstep. rewrite Hq, Ferr, Herr, Fval, Hval, Fsel, Hsel, Fun, Hun in Hstep. cbn [negb] in Hstep.
   rewrite Fmb, Faw in Hstep.
   assert (Hgo : forall rr,
             rr = match ss_receiving s with Some (r, m) => rr_of (verdict_of r m) | None => None end ->
@@ -752,7 +757,7 @@ Qed.
 (* An active entry whose popped verdict (if any) is not an error does exactly one of four things,
    each justified by the specification evaluated on the state at this entry. *)
 Lemma active_entry now st s :
-  Inv st -> active now st s ->
+  Inv st -> active now st s -> p_unreported st = [] ->
   (forall r m e, ss_receiving s = Some (r, m) -> verdict_of r m <> VdErr e) ->
   let st1 := check_expired now st in
   let spec := select_spec written (p_mailbox st) (p_awaiting st) (start_of s now) now in
@@ -765,13 +770,14 @@ Lemma active_entry now st s :
   (exists e s', spec = Fail e /\
                 step now st = Val (set_flags (set_error (set_sel st1 (Some s')) (PErr e)) false (p_selecting st1))).
 Proof.
-  intros HI (Hq & Herr & Hval & Hsel) Hnoerr st1 spec.
+  intros HI (Hq & Herr & Hval & Hsel) Hun Hnoerr st1 spec.
   destruct (check_expired_fields now st) as (Fmb & Faw & Fsel & Fval & Ferr).
-  fold st1 in Hq, Fmb, Faw, Fsel, Fval, Ferr.
+  pose proof (check_expired_unrep now st) as Fun.
+  fold st1 in Hq, Fmb, Faw, Fsel, Fval, Ferr, Fun.
   assert (Hinv : sel_inv s (p_mailbox st)) by (apply HI; auto).
   pose proof (pass_ok s (p_mailbox st) (p_awaiting st) now Hinv Hnoerr) as H. cbv zeta in H.
   assert (Hsrcs : ss_sources (with_start s (Some (start_of s now))) = written) by apply Hinv.
-  unfold Select.step. fold st1. rewrite Hq, Ferr, Herr, Fval, Hval, Fsel, Hsel. cbn [negb].
+  unfold Select.step. fold st1. rewrite Hq, Ferr, Herr, Fval, Hval, Fsel, Hsel, Fun, Hun. cbn [negb].
   rewrite Fmb, Faw.
   destruct (ss_receiving s) as [[r0 m0]|] eqn:Ercv.
   - destruct (verdict_of r0 m0) as [n| |e] eqn:Evd; [| |exfalso; eapply Hnoerr; eauto].
@@ -796,6 +802,21 @@ Proof.
 Qed.
 
 (* ---------------------------------------------------------------- totality + invariance *)
+(* the re-park of a select woken before every awaited process has been reported (Phase 3) *)
+Lemma repark_step now st s :
+  active now st s -> p_unreported st <> [] ->
+  (forall r m e, ss_receiving s = Some (r, m) -> verdict_of r m <> VdErr e) ->
+  step now st = Val (set_flags (check_expired now st) false true).
+Proof.
+  intros (Hq & Herr & Hval & Hsel) Hun Hne.
+  destruct (check_expired_fields now st) as (Fmb & Faw & Fsel & Fval & Ferr).
+  pose proof (check_expired_unrep now st) as Fun.
+  unfold Select.step. rewrite Hq, Ferr, Herr, Fval, Hval, Fsel, Hsel, Fun. cbn [negb].
+  destruct (p_unreported st) as [|u us]; [contradiction|].
+  destruct (ss_receiving s) as [[r0 m0]|] eqn:Ercv; [|reflexivity].
+  destruct (verdict_of r0 m0) as [n| |e] eqn:Evd; try reflexivity. exfalso. eapply Hne; eauto.
+Qed.
+
 Lemma step_total now st : Inv st -> exists st', step now st = Val st' /\ Inv st'.
 Proof.
   intros HI.
@@ -815,7 +836,10 @@ Proof.
           eexists; split; [reflexivity|]. apply Inv_flags. apply Inv_error. }
       all: assert (Hne : forall r m e, ss_receiving s = Some (r, m) -> verdict_of r m <> VdErr e)
           by (intros r m e Heq; rewrite Ercv in Heq; inversion Heq; subst; rewrite Evd; discriminate).
-      all: destruct (active_entry now st s HI (conj Hq (conj Herr (conj Hval Hsel))) Hne)
+      all: destruct (p_unreported st) as [|u us] eqn:Hun;
+        [|rewrite (repark_step now st s (conj Hq (conj Herr (conj Hval Hsel))));
+          [eexists; split; [reflexivity|apply Inv_flags; exact HI1]|rewrite Hun; discriminate|assumption]].
+      all: destruct (active_entry now st s HI (conj Hq (conj Herr (conj Hval Hsel))) Hun Hne)
           as [(v & mb' & _ & ->)|[(s' & Hi' & _ & ->)|[(s' & _ & Hi' & ->)|(e & s' & _ & ->)]]].
       all: eexists; split; [reflexivity|].
       all: try (unfold Inv; cbn; intros _ s2 Hs2; discriminate Hs2).
@@ -823,7 +847,10 @@ Proof.
       all: try (apply Inv_flags; apply Inv_error).
     + assert (Hne : forall r m e, ss_receiving s = Some (r, m) -> verdict_of r m <> VdErr e)
           by (intros r m e Heq; rewrite Ercv in Heq; discriminate Heq).
-      destruct (active_entry now st s HI (conj Hq (conj Herr (conj Hval Hsel))) Hne)
+      destruct (p_unreported st) as [|u us] eqn:Hun;
+        [|rewrite (repark_step now st s (conj Hq (conj Herr (conj Hval Hsel))));
+          [eexists; split; [reflexivity|apply Inv_flags; exact HI1]|rewrite Hun; discriminate|assumption]].
+      destruct (active_entry now st s HI (conj Hq (conj Herr (conj Hval Hsel))) Hun Hne)
           as [(v & mb' & _ & ->)|[(s' & Hi' & _ & ->)|[(s' & _ & Hi' & ->)|(e & s' & _ & ->)]]].
       all: eexists; split; [reflexivity|].
       all: try (unfold Inv; cbn; intros _ s2 Hs2; discriminate Hs2).
@@ -846,7 +873,7 @@ Qed.
 
 Lemma apply_event_total ev st : Inv st -> exists st', apply_event ev st = Val st' /\ Inv st'.
 Proof.
-  intros HI. destruct ev as [now|m|p v|p| |p r|tnow]; cbn [Select.apply_event].
+  intros HI. destruct ev as [now|m|p v|p| |p r|tnow|rps]; cbn [Select.apply_event].
   - apply step_total; auto.
   - eexists; split; [reflexivity|]. apply Inv_wake.
     unfold Inv; cbn. intros He s Hs. apply sel_inv_app. apply HI; auto.
@@ -857,6 +884,7 @@ Proof.
     + apply notify_result_Inv; auto.
     + apply Inv_error.
   - eexists; split; [reflexivity|]. apply Inv_check_expired; auto.
+  - eexists; split; [reflexivity|]. exact HI.
 Qed.
 
 Lemma Inv_initial mb aw : Inv (initial mb aw).
@@ -889,9 +917,10 @@ Qed.
 (* a step that turns "no value yet" into "value v" is a completing entry of an active select *)
 Lemma completing_is_active now st st' v :
   step now st = Val st' -> p_value st = None -> p_value st' = Some v ->
-  exists s, active now st s /\ (forall r m e, ss_receiving s = Some (r, m) -> verdict_of r m <> VdErr e).
+  exists s, active now st s /\ (forall r m e, ss_receiving s = Some (r, m) -> verdict_of r m <> VdErr e) /\
+            p_unreported st = [].
 Proof.
-  intros Hstep Hv0 Hv1.
+  intros Hstep Hv0 Hv1. pose proof (check_expired_unrep now st) as Fun.
   destruct (check_expired_fields now st) as (Fmb & Faw & Fsel & Fval & Ferr).
   unfold Select.step in Hstep.
   destruct (p_queued (check_expired now st)) eqn:Hq; cbn [negb] in Hstep.
@@ -902,8 +931,11 @@ Proof.
   rewrite Fsel in Hstep. destruct (p_sel st) as [s|] eqn:Hsel.
   2:{ inversion Hstep; subst. unfold initialize_select in Hv1.
       destruct (pids_of written); cbn in Hv1; congruence. }
-  exists s. split; [repeat split; auto|].
-  intros r m e Hr Hvd. rewrite Hr, Hvd in Hstep. inversion Hstep; subst. cbn in Hv1. congruence.
+  exists s. split; [repeat split; auto|]. split.
+  - intros r m e Hr Hvd. rewrite Hr, Hvd in Hstep. inversion Hstep; subst. cbn in Hv1. congruence.
+  - destruct (p_unreported st) as [|u us] eqn:Hun; auto. exfalso. rewrite Fun in Hstep.
+    destruct (ss_receiving s) as [[r0 m0]|]; [destruct (verdict_of r0 m0)|];
+      inversion Hstep; subst; cbn in Hv1; congruence.
 Qed.
 
 Lemma select_refines_spec_step now st st' v :
@@ -912,10 +944,10 @@ Lemma select_refines_spec_step now st st' v :
     select_spec written (p_mailbox st) (p_awaiting st) (start_of s now) now = Complete v (p_mailbox st').
 Proof.
   intros HI Hstep Hv0 Hv1.
-  destruct (completing_is_active now st st' v Hstep Hv0 Hv1) as (s & Hact & Hne).
+  destruct (completing_is_active now st st' v Hstep Hv0 Hv1) as (s & Hact & Hne & Hun).
   destruct (check_expired_fields now st) as (Fmb & Faw & Fsel & Fval & Ferr).
   exists s. split; [apply Hact|].
-  destruct (active_entry now st s HI Hact Hne)
+  destruct (active_entry now st s HI Hact Hun Hne)
     as [(v' & mb' & Hspec & Hs)|[(s' & _ & _ & Hs)|[(s' & _ & _ & Hs)|(e & s' & _ & Hs)]]];
     rewrite Hs in Hstep; inversion Hstep; subst st'; cbn in Hv1; try congruence.
   inversion Hv1; subst v'. cbn. exact Hspec.
@@ -923,17 +955,17 @@ Qed.
 
 (* a step that parks a runnable, live process (queued before, not queued and not dead after) *)
 Lemma parks_only_when_spec_waits_step now st st' s :
-  Inv st -> step now st = Val st' -> active now st s ->
+  Inv st -> step now st = Val st' -> active now st s -> p_unreported st = [] ->
   p_queued st' = false -> p_error st' = None ->
   select_spec written (p_mailbox st) (p_awaiting st) (start_of s now) now = Wait.
 Proof.
-  intros HI Hstep Hact Hq' He'.
+  intros HI Hstep Hact Hun Hq' He'.
   destruct (check_expired_fields now st) as (Fmb & Faw & Fsel & Fval & Ferr).
   assert (Hne : forall r m e, ss_receiving s = Some (r, m) -> verdict_of r m <> VdErr e).
   { intros r m e Hr Hvd. destruct Hact as (Hq & Herr & Hval & Hsel).
     unfold Select.step in Hstep. rewrite Hq, Ferr, ?Herr, Fval, ?Hval, Fsel, ?Hsel, Hr, Hvd in Hstep.
     cbn [negb] in Hstep. inversion Hstep; subst. cbn in He'. discriminate. }
-  destruct (active_entry now st s HI Hact Hne)
+  destruct (active_entry now st s HI Hact Hun Hne)
     as [(v' & mb' & Hspec & Hs)|[(s' & _ & _ & Hs)|[(s' & Hspec & _ & Hs)|(e & s' & _ & Hs)]]];
     rewrite Hs in Hstep; inversion Hstep; subst st'; cbn in Hq', He'; auto; try discriminate.
   - destruct Hact as (Hq & _). congruence.
@@ -943,12 +975,12 @@ Qed.
 (* a step that kills a live process with an executor error: either the entry itself failed and
    the spec says Fail on this entry's state, or the popped verdict was a filter error *)
 Lemma fails_only_when_spec_fails_step now st st' s e :
-  Inv st -> step now st = Val st' -> active now st s ->
+  Inv st -> step now st = Val st' -> active now st s -> p_unreported st = [] ->
   p_error st' = Some (PErr e) ->
   (exists r m, ss_receiving s = Some (r, m) /\ verdict_of r m = VdErr e) \/
   select_spec written (p_mailbox st) (p_awaiting st) (start_of s now) now = Fail e.
 Proof.
-  intros HI Hstep Hact He'.
+  intros HI Hstep Hact Hun He'.
   destruct (check_expired_fields now st) as (Fmb & Faw & Fsel & Fval & Ferr).
   destruct (ss_receiving s) as [[r0 m0]|] eqn:Ercv.
   - destruct (verdict_of r0 m0) as [n| |e0] eqn:Evd.
@@ -959,13 +991,13 @@ Proof.
     all: right.
     all: assert (Hne : forall r m e, ss_receiving s = Some (r, m) -> verdict_of r m <> VdErr e)
         by (intros r m e1 Heq; rewrite Ercv in Heq; inversion Heq; subst; rewrite Evd; discriminate).
-    all: destruct (active_entry now st s HI Hact Hne)
+    all: destruct (active_entry now st s HI Hact Hun Hne)
         as [(v' & mb' & _ & Hs)|[(s' & _ & _ & Hs)|[(s' & _ & _ & Hs)|(e1 & s' & Hspec & Hs)]]];
         rewrite Hs in Hstep; inversion Hstep; subst st'; cbn in He'; destruct Hact as (_ & Herr & _); try congruence.
   - right.
     assert (Hne : forall r m e, ss_receiving s = Some (r, m) -> verdict_of r m <> VdErr e)
         by (intros r m e1 Heq; rewrite Ercv in Heq; discriminate Heq).
-    destruct (active_entry now st s HI Hact Hne)
+    destruct (active_entry now st s HI Hact Hun Hne)
         as [(v' & mb' & _ & Hs)|[(s' & _ & _ & Hs)|[(s' & _ & _ & Hs)|(e1 & s' & Hspec & Hs)]]];
         rewrite Hs in Hstep; inversion Hstep; subst st'; cbn in He'; destruct Hact as (_ & Herr & _); try congruence.
 Qed.
@@ -973,14 +1005,14 @@ Qed.
 (* ... and a filter is only ever CALLED on a message for which the spec, on the calling entry's
    state, depends on that verdict: if the verdict is an error the spec already says Fail *)
 Lemma failing_filter_called_only_when_spec_fails_step now st st' s s' r m e :
-  Inv st -> step now st = Val st' -> active now st s ->
+  Inv st -> step now st = Val st' -> active now st s -> p_unreported st = [] ->
   (forall r m e, ss_receiving s = Some (r, m) -> verdict_of r m <> VdErr e) ->
   p_error st' = None -> p_value st' = None -> p_queued st' = true ->
   p_sel st' = Some s' -> ss_receiving s' = Some (r, m) -> verdict_of r m = VdErr e ->
   select_spec written (p_mailbox st) (p_awaiting st) (start_of s now) now = Fail e.
 Proof.
-  intros HI Hstep Hact Hne He' Hv' Hq' Hs' Hr Hvd.
-  destruct (active_entry now st s HI Hact Hne)
+  intros HI Hstep Hact Hun Hne He' Hv' Hq' Hs' Hr Hvd.
+  destruct (active_entry now st s HI Hact Hun Hne)
     as [(v' & mb' & _ & Hs)|[(s2 & _ & (r1 & m1 & Hr1 & Hfail) & Hs)|[(s2 & _ & _ & Hs)|(e1 & s2 & _ & Hs)]]];
     rewrite Hs in Hstep; inversion Hstep; subst st'; cbn in He', Hv', Hq', Hs'; try discriminate.
   inversion Hs'; subst s2. rewrite Hr in Hr1. inversion Hr1; subst. apply Hfail. exact Hvd.
@@ -999,7 +1031,8 @@ Qed.
 
 Theorem parks_only_when_spec_waits mb0 aw0 evs st now st' s :
   run evs (initial mb0 aw0) = Val st ->
-  step now st = Val st' -> active now st s -> p_queued st' = false -> p_error st' = None ->
+  step now st = Val st' -> active now st s -> p_unreported st = [] ->
+  p_queued st' = false -> p_error st' = None ->
   select_spec written (p_mailbox st) (p_awaiting st) (start_of s now) now = Wait.
 Proof.
   intros Hrun. destruct (run_total evs (initial mb0 aw0) (Inv_initial mb0 aw0)) as (st1 & Hrun' & HI).
@@ -1008,7 +1041,7 @@ Qed.
 
 Theorem fails_only_when_spec_fails mb0 aw0 evs st now st' s e :
   run evs (initial mb0 aw0) = Val st ->
-  step now st = Val st' -> active now st s -> p_error st' = Some (PErr e) ->
+  step now st = Val st' -> active now st s -> p_unreported st = [] -> p_error st' = Some (PErr e) ->
   (exists r m, ss_receiving s = Some (r, m) /\ verdict_of r m = VdErr e) \/
   select_spec written (p_mailbox st) (p_awaiting st) (start_of s now) now = Fail e.
 Proof.
@@ -1018,7 +1051,7 @@ Qed.
 
 Theorem failing_filter_called_only_when_spec_fails mb0 aw0 evs st now st' s s' r m e :
   run evs (initial mb0 aw0) = Val st ->
-  step now st = Val st' -> active now st s ->
+  step now st = Val st' -> active now st s -> p_unreported st = [] ->
   (forall r m e, ss_receiving s = Some (r, m) -> verdict_of r m <> VdErr e) ->
   p_error st' = None -> p_value st' = None -> p_queued st' = true ->
   p_sel st' = Some s' -> ss_receiving s' = Some (r, m) -> verdict_of r m = VdErr e ->
@@ -1030,6 +1063,92 @@ Qed.
 
 Theorem machine_never_panics mb0 aw0 evs : exists st, run evs (initial mb0 aw0) = Val st.
 Proof. destruct (run_total evs (initial mb0 aw0) (Inv_initial mb0 aw0)) as (st & H & _). eauto. Qed.
+
+(* ---------------------------------------------------------------- the unreported-awaits set
+   (since /repo 8388832): it is non-empty only between the Await and its last report, and in that
+   window the select has not started evaluating its sources *)
+Definition UInv (st : proc) : Prop :=
+  p_error st = None -> p_value st = None ->
+  (p_sel st = None -> p_unreported st = []) /\
+  (p_unreported st <> [] -> forall s, p_sel st = Some s -> ss_start s = None /\ ss_receiving s = None).
+
+Lemma UInv_same st st' :
+  p_sel st' = p_sel st -> p_unreported st' = p_unreported st ->
+  (p_error st' = None -> p_error st = None) -> (p_value st' = None -> p_value st = None) ->
+  UInv st -> UInv st'.
+Proof.
+  intros Es Eu Ee Ev H He Hv. rewrite Es, Eu. apply H; auto.
+Qed.
+
+Lemma UInv_report ps st st' :
+  p_sel st' = p_sel st -> p_unreported st' = filter (fun t => negb (existsb (Nat.eqb t) ps)) (p_unreported st) ->
+  (p_error st' = None -> p_error st = None) -> (p_value st' = None -> p_value st = None) ->
+  UInv st -> UInv st'.
+Proof.
+  intros Es Eu Ee Ev H He Hv. destruct (H (Ee He) (Ev Hv)) as (A & B). rewrite Es, Eu. split.
+  - intros Hn. rewrite (A Hn). reflexivity.
+  - intros Hne. apply B. intros E. rewrite E in Hne. apply Hne. reflexivity.
+Qed.
+
+Lemma step_UInv now st st' : UInv st -> step now st = Val st' -> UInv st'.
+Proof.
+  intros HU Hstep.
+  destruct (check_expired_fields now st) as (Fmb & Faw & Fsel & Fval & Ferr).
+  pose proof (check_expired_unrep now st) as Fun.
+  assert (HU1 : UInv (check_expired now st)).
+  { eapply UInv_same; eauto; congruence. }
+  unfold Select.step in Hstep.
+  destruct (negb (p_queued (check_expired now st))); [inversion Hstep; subst; exact HU1|].
+  destruct (p_error (check_expired now st)) eqn:Ee.
+  { inversion Hstep; subst. intros He. cbn in He. congruence. }
+  destruct (p_value (check_expired now st)) eqn:Ev; [inversion Hstep; subst; exact HU1|].
+  destruct (HU1 Ee Ev) as (A & B).
+  destruct (p_sel (check_expired now st)) as [s|] eqn:Hsel.
+  - destruct (match ss_receiving s with Some (r, m) => Some (verdict_of r m) | None => None end) as [[n| |e]|].
+    3:{ inversion Hstep; subst. intros He. cbn in He. discriminate. }
+    all: destruct (p_unreported (check_expired now st)) as [|u us] eqn:Hun;
+      [|inversion Hstep; subst; intros He Hv; cbn; rewrite Hsel, Hun; split; [discriminate|intros _; apply B; discriminate]].
+    all: destruct (process_sources _ _ _ _ _ _ _ _ _); inversion Hstep; subst; intros He Hv; cbn in He, Hv |- *;
+      try discriminate; rewrite ?Hun; (split; [discriminate|intros Hc; contradiction]).
+  - inversion Hstep; subst. specialize (A eq_refl). unfold initialize_select.
+    destruct (pids_of written) eqn:Ep; intros He Hv; cbn; rewrite ?A.
+    + split; [discriminate|intros Hc; contradiction].
+    + split; [discriminate|]. intros _ s1 Hs1. inversion Hs1; subst. cbn. auto.
+Qed.
+
+Lemma apply_event_UInv ev st st' : UInv st -> apply_event ev st = Val st' -> UInv st'.
+Proof.
+  intros HU H. destruct ev as [now|m|p v|p| |p r|tnow|rps]; cbn [Select.apply_event] in H.
+  - eapply step_UInv; eauto.
+  - inversion H; subst. eapply (UInv_same st); eauto; unfold wake; destruct (p_selecting _); cbn; auto.
+  - inversion H; subst. unfold notify_result, wake.
+    destruct (fix45 && negb (aw_has p (p_awaiting st))).
+    + eapply (UInv_same st); eauto; destruct (p_selecting _); cbn; auto.
+    + eapply (UInv_report [p] st); eauto; destruct (p_selecting _); cbn; auto.
+  - inversion H; subst. destruct (fix45 && negb (aw_has p (p_awaiting st))).
+    + eapply (UInv_same st); eauto; unfold wake; destruct (p_selecting _); cbn; auto.
+    + intros He. cbn in He. discriminate.
+  - inversion H; subst. eapply (UInv_same st); eauto; unfold wake; destruct (p_selecting _); cbn; auto.
+  - destruct (aw_has p (p_awaiting st)); [destruct r|]; inversion H; subst; auto.
+    + unfold notify_result, wake. destruct (fix45 && negb (aw_has p (p_awaiting st))).
+      * eapply (UInv_same st); eauto; destruct (p_selecting _); cbn; auto.
+      * eapply (UInv_report [p] st); eauto; destruct (p_selecting _); cbn; auto.
+    + intros He. cbn in He. discriminate.
+  - inversion H; subst. destruct (check_expired_fields tnow st) as (Fmb & Faw & Fsel & Fval & Ferr).
+    eapply (UInv_same st); eauto; try congruence. apply check_expired_unrep.
+  - inversion H; subst. eapply (UInv_report rps st); eauto.
+Qed.
+
+Lemma run_UInv : forall evs st st', UInv st -> run evs st = Val st' -> UInv st'.
+Proof.
+  induction evs as [|ev evs IH]; intros st st' HU H; cbn [Select.run] in H.
+  - inversion H; subst; auto.
+  - destruct (apply_event ev st) as [st1| |] eqn:E; cbn [obind] in H; try discriminate.
+    eapply (IH st1 st'); auto. eapply apply_event_UInv; eauto.
+Qed.
+
+Lemma UInv_initial mb aw : UInv (initial mb aw).
+Proof. intros _ _. cbn. split; auto. intros H. contradiction. Qed.
 
 (* ---------------------------------------------------------------- the premises of the protocol cone
    (sys/ProtoParked.v park_honest / time_honest, sys/ProtoAwait.v await_honest) as theorems *)
@@ -1047,14 +1166,15 @@ Proof. intros (A & B & C & _). repeat split; auto. Qed.
    evaluated (start time set) *)
 Theorem parks_only_after_full_scan mb0 aw0 evs st now st' s :
   run evs (initial mb0 aw0) = Val st ->
-  step now st = Val st' -> active now st s -> p_queued st' = false -> p_error st' = None ->
+  step now st = Val st' -> active now st s -> p_unreported st = [] ->
+  p_queued st' = false -> p_error st' = None ->
   exists s', p_sel st' = Some s' /\ p_selecting st' = true /\ ss_start s' <> None /\
              Forall (fun c => c = length (p_mailbox st')) (ss_cursors s').
 Proof.
-  intros Hrun Hstep Hact Hq' He'.
+  intros Hrun Hstep Hact Hun Hq' He'.
   destruct (run_total evs (initial mb0 aw0) (Inv_initial mb0 aw0)) as (st1 & Hrun' & HI).
   rewrite Hrun in Hrun'. inversion Hrun'; subst st1.
-  destruct (park_entry now st st' s HI Hact Hstep Hq' He') as (s' & A & B & C & D & E & F & G & _).
+  destruct (park_entry now st st' s HI Hact Hun Hstep Hq' He') as (s' & A & B & C & D & E & F & G & _).
   exists s'. rewrite C. repeat split; auto. rewrite F. discriminate.
 Qed.
 
@@ -1062,14 +1182,15 @@ Qed.
    to any receive source (type-compatible and, for a filter source, not rejected) *)
 Theorem never_parks_with_acceptable_message mb0 aw0 evs st now st' s :
   run evs (initial mb0 aw0) = Val st ->
-  step now st = Val st' -> active now st s -> p_queued st' = false -> p_error st' = None ->
+  step now st = Val st' -> active now st s -> p_unreported st = [] ->
+  p_queued st' = false -> p_error st' = None ->
   forall r c t, nth_recv written r = Some (c, t) ->
   forall m, In m (p_mailbox st') -> compat c m = false \/ (t = false /\ verdict_of r m = VdNil).
 Proof.
-  intros Hrun Hstep Hact Hq' He' r c t Hsrc m Hin.
+  intros Hrun Hstep Hact Hun Hq' He' r c t Hsrc m Hin.
   destruct (run_total evs (initial mb0 aw0) (Inv_initial mb0 aw0)) as (st1 & Hrun' & HI).
   rewrite Hrun in Hrun'. inversion Hrun'; subst st1.
-  destruct (park_entry now st st' s HI Hact Hstep Hq' He') as (s' & A & B & C & D & E & F & G & _).
+  destruct (park_entry now st st' s HI Hact Hun Hstep Hq' He') as (s' & A & B & C & D & E & F & G & _).
   rewrite C in Hin. apply In_nth_error in Hin. destruct Hin as (j & Hj).
   destruct E as (_ & Hlen & Hsk & _).
   assert (Hcur : cur_get r (ss_cursors s') = length (p_mailbox st)).
@@ -1088,7 +1209,8 @@ Theorem await_slice_has_not_started now st st' ts :
   ts = pids_of written /\ ts <> [] /\ p_queued st' = false /\ p_selecting st' = true /\
   exists s', p_sel st' = Some s' /\ ss_start s' = None /\ ss_sources s' = written /\
              ss_receiving s' = None /\
-             p_awaiting st' = fold_left (fun aw p => aw_insert p None aw) ts (p_awaiting st).
+             p_awaiting st' = fold_left (fun aw p => aw_insert p None aw) ts (p_awaiting st) /\
+             p_unreported st' = ts.
 Proof.
   intros Ha Hstep.
   destruct (check_expired_fields now st) as (Fmb & Faw & Fsel & Fval & Ferr).
@@ -1116,6 +1238,67 @@ Proof.
   destruct (p_sel st); [discriminate|]. auto.
 Qed.
 
+(* ---- since /repo 8388832 (F72): the select does not evaluate its sources before the await has
+   reported the state of every process source ---- *)
+
+(* a select woken (by a message, a timeout tick, a single result) while some awaited process is
+   still unreported parks again: nothing is evaluated, nothing changes but the scheduling flags,
+   and its start time is still unset *)
+Theorem reparks_until_all_reported mb0 aw0 evs st now s :
+  run evs (initial mb0 aw0) = Val st ->
+  active now st s -> p_unreported st <> [] ->
+  step now st = Val (set_flags (check_expired now st) false true) /\
+  ss_start s = None /\ ss_receiving s = None.
+Proof.
+  intros Hrun Hact Hun.
+  assert (HU : UInv st) by (eapply run_UInv; [apply UInv_initial|exact Hrun]).
+  destruct Hact as (Hq & Herr & Hval & Hsel).
+  destruct (HU Herr Hval) as (_ & HB). destruct (HB Hun s Hsel) as (Hst & Hrc).
+  split; auto. apply (repark_step now st s); [repeat split; auto|exact Hun|].
+  intros r m e Hr. rewrite Hrc in Hr. discriminate.
+Qed.
+
+(* ... so an entry that completes the select (or evaluates anything) runs only once every awaited
+   process has been reported: a process source that finished long ago cannot lose to a later
+   source whose result merely arrived first *)
+Theorem completes_only_after_all_reported now st st' v :
+  step now st = Val st' -> p_value st = None -> p_value st' = Some v -> p_unreported st = [].
+Proof.
+  intros Hstep Hv0 Hv1. destruct (completing_is_active now st st' v Hstep Hv0 Hv1) as (_ & _ & _ & H). exact H.
+Qed.
+
+(* park_honest clause 1 in the form the protocol cone now states it: whichever way an entry parks
+   the process, IF the select has started evaluating (start time set) THEN every receive cursor
+   is at the end of the mailbox.  (An Await slice and a re-park before all reports have the start
+   time unset.) *)
+Theorem parked_started_select_is_fully_scanned mb0 aw0 evs st now st' :
+  run evs (initial mb0 aw0) = Val st ->
+  step now st = Val st' -> runs now st -> p_queued st' = false -> p_error st' = None ->
+  forall s', p_sel st' = Some s' -> ss_start s' <> None ->
+             Forall (fun c => c = length (p_mailbox st')) (ss_cursors s').
+Proof.
+  intros Hrun Hstep (Hq & Herr & Hval) Hq' He' s' Hs' Hstart.
+  destruct (run_total evs (initial mb0 aw0) (Inv_initial mb0 aw0)) as (st1 & Hrun' & HI).
+  rewrite Hrun in Hrun'. inversion Hrun'; subst st1.
+  destruct (p_sel st) as [s|] eqn:Hsel.
+  - destruct (p_unreported st) as [|u us] eqn:Hun.
+    + destruct (park_entry now st st' s HI (conj Hq (conj Herr (conj Hval Hsel))) Hun Hstep Hq' He')
+        as (s2 & A & B & C & D & E & F & G & _).
+      rewrite A in Hs'. inversion Hs'; subst s2. rewrite C. exact G.
+    + exfalso. apply Hstart.
+      destruct (reparks_until_all_reported _ _ _ _ now s Hrun (conj Hq (conj Herr (conj Hval Hsel)))
+                  ltac:(rewrite Hun; discriminate)) as (Hs & Hst & _).
+      rewrite Hs in Hstep. inversion Hstep; subst st'. cbn in Hs'.
+      destruct (check_expired_fields now st) as (_ & _ & Fsel & _). rewrite Fsel, Hsel in Hs'.
+      inversion Hs'; subst s'. exact Hst.
+  - exfalso. apply Hstart.
+    destruct (check_expired_fields now st) as (Fmb & Faw & Fsel & Fval & Ferr).
+    unfold Select.step in Hstep. rewrite Hq, Ferr, Herr, Fval, Hval, Fsel, Hsel in Hstep. cbn [negb] in Hstep.
+    inversion Hstep; subst st'. unfold initialize_select in Hs', Hq'.
+    destruct (pids_of written) eqn:Ep; cbn in Hs', Hq'; [congruence|].
+    inversion Hs'; subst s'. reflexivity.
+Qed.
+
 (* time_honest (for the slice that parks): an entry never parks the process with a timeout
    already due at the clock it checked — whether it parks after a pass over the sources (every
    timeout source was found not ready against the start time of this select) or by awaiting (the
@@ -1128,8 +1311,18 @@ Proof.
   intros Hrun Hstep (Hq & Herr & Hval) Hq' He' s' Hs'.
   destruct (run_total evs (initial mb0 aw0) (Inv_initial mb0 aw0)) as (st1 & Hrun' & HI).
   rewrite Hrun in Hrun'. inversion Hrun'; subst st1.
+  assert (HU : UInv st) by (eapply run_UInv; [apply UInv_initial|exact Hrun]).
   destruct (p_sel st) as [s|] eqn:Hsel.
-  - destruct (park_entry now st st' s HI (conj Hq (conj Herr (conj Hval Hsel))) Hstep Hq' He')
+  - destruct (p_unreported st) as [|u us] eqn:Hun.
+    2:{ (* woken before every awaited process was reported: parks again, start time still unset *)
+        destruct (HU Herr Hval) as (_ & HB).
+        destruct (HB ltac:(rewrite Hun; discriminate) s Hsel) as (Hst & Hrc).
+        rewrite (repark_step now st s (conj Hq (conj Herr (conj Hval Hsel)))) in Hstep;
+          [|rewrite Hun; discriminate|intros r m e Hr; rewrite Hrc in Hr; discriminate].
+        inversion Hstep; subst st'. cbn in Hs'.
+        destruct (check_expired_fields now st) as (_ & _ & Fsel & _). rewrite Fsel, Hsel in Hs'.
+        inversion Hs'; subst s'. unfold expired. rewrite Hst. reflexivity. }
+    destruct (park_entry now st st' s HI (conj Hq (conj Herr (conj Hval Hsel))) Hun Hstep Hq' He')
       as (s2 & A & B & C & D & E & F & G & Htm & _).
     rewrite A in Hs'. inversion Hs'; subst s2. unfold expired. rewrite F.
     destruct E as (Hsrc & _). rewrite Hsrc.
@@ -1176,9 +1369,9 @@ Lemma completing_step_awaiting now st st' v :
                    else p_awaiting st.
 Proof.
   intros HI Hstep Hv0 Hv1.
-  destruct (completing_is_active now st st' v Hstep Hv0 Hv1) as (s & Hact & Hne).
+  destruct (completing_is_active now st st' v Hstep Hv0 Hv1) as (s & Hact & Hne & Hun).
   destruct (check_expired_fields now st) as (Fmb & Faw & Fsel & Fval & Ferr).
-  destruct (active_entry now st s HI Hact Hne)
+  destruct (active_entry now st s HI Hact Hun Hne)
     as [(v' & mb' & Hspec & Hs)|[(s' & _ & _ & Hs)|[(s' & _ & _ & Hs)|(e & s' & _ & Hs)]]];
     rewrite Hs in Hstep; inversion Hstep; subst st'; cbn in Hv1; try congruence.
   cbn. rewrite Faw. reflexivity.
@@ -1303,6 +1496,8 @@ Proof.
     { intros t Ht. cbn in Ht. inversion Ht; subst. destruct (ss_start s) eqn:E; auto. eapply Hge; eauto. }
     destruct (match ss_receiving s with Some (r, m) => Some (verdict_of r m) | None => None end) as [[n| |e]|].
     3:{ inversion Hstep; subst. unfold start_ge. cbn. rewrite Fsel. intros s1 t H1. inversion H1; subst. eapply Hge; eauto. }
+    all: destruct (p_unreported (check_expired now st)) as [|u us];
+      [|inversion Hstep; subst; unfold start_ge; cbn; rewrite Fsel; intros s1 t H1; inversion H1; subst; eapply Hge; eauto].
     all: match type of Hstep with context [process_sources ?a ?b ?c ?d ?e ?f ?g ?h ?i] =>
            pose proof (process_sources_start a b c d e f g h i) as Hst;
            destruct (process_sources a b c d e f g h i) end;
@@ -1317,7 +1512,7 @@ Lemma apply_event_start_ge t0 ev st st' :
   match ev with EStep t => (t0 <= t)%Z | _ => True end ->
   start_ge t0 st -> apply_event ev st = Val st' -> start_ge t0 st'.
 Proof.
-  intros Hev Hge H. destruct ev as [now|m|p v|p| |p r|tnow]; cbn [Select.apply_event] in H.
+  intros Hev Hge H. destruct ev as [now|m|p v|p| |p r|tnow|rps]; cbn [Select.apply_event] in H.
   - eapply step_start_ge; eauto.
   - inversion H; subst. unfold start_ge, wake. destruct (p_selecting _); cbn; exact Hge.
   - inversion H; subst. unfold start_ge, notify_result, wake.
@@ -1328,6 +1523,7 @@ Proof.
     all: try (unfold start_ge, notify_result, wake; destruct (fix45 && _); destruct (p_selecting _); cbn; exact Hge).
     all: try (unfold start_ge; cbn; exact Hge).
   - inversion H; subst. unfold start_ge. destruct (check_expired_fields tnow st) as (_ & _ & Fsel & _). rewrite Fsel. exact Hge.
+  - inversion H; subst. exact Hge.
 Qed.
 
 Lemma run_start_ge t0 : forall evs st st',
@@ -1451,7 +1647,7 @@ Qed.
 (* ---------------------------------------------------------------- F45: stale awaits *)
 (* `! [p0, 0]` : the select completes with nil (timeout 0); afterwards p0 fails *)
 Definition f45_written : list source := [SrcProc 0; SrcTimeout 0%Z].
-Definition f45_events : list event := [EStep 0%Z; EActive; EStep 0%Z; EFail 0].
+Definition f45_events : list event := [EStep 0%Z; EReport [0]; EActive; EStep 0%Z; EFail 0].
 Definition no_verdict : nat -> msg -> verdict := fun _ _ => VdNil.
 
 (* "a process whose select has completed is not killed by the later failure of a process it
@@ -1466,10 +1662,10 @@ Definition completed_select_survives (fix45 : bool) : Prop :=
 (* the code as it stands (Process.awaiting is never cleared; the kill is unconditional) *)
 Definition f45_state : proc :=
   {| p_mailbox := []; p_awaiting := [(0, None)]; p_sel := None; p_queued := true; p_selecting := false;
-     p_value := Some VNil; p_error := None |}.
+     p_value := Some VNil; p_error := None; p_unreported := [] |}.
 
 Lemma f45_state_reached :
-  run false no_verdict f45_written [EStep 0%Z; EActive; EStep 0%Z] (initial [] []) = Val f45_state.
+  run false no_verdict f45_written [EStep 0%Z; EReport [0]; EActive; EStep 0%Z] (initial [] []) = Val f45_state.
 Proof. vm_compute. reflexivity. Qed.
 
 Lemma stale_await_kills_refuted : ~ completed_select_survives false.
@@ -1483,7 +1679,7 @@ Qed.
 (* the same history under the repair *)
 Definition f45_state_fixed : proc :=
   {| p_mailbox := []; p_awaiting := []; p_sel := None; p_queued := true; p_selecting := false;
-     p_value := Some VNil; p_error := None |}.
+     p_value := Some VNil; p_error := None; p_unreported := [] |}.
 
 Example stale_await_witness_repaired :
   run true no_verdict f45_written f45_events (initial [] []) = Val f45_state_fixed.
@@ -1497,7 +1693,7 @@ Proof. vm_compute. reflexivity. Qed.
 Definition ex_written : list source := [SrcProc 0; SrcRecv [0; 1; 2] false; SrcTimeout 50%Z].
 Definition ex_verdict : nat -> msg -> verdict :=
   fun r m => match fst m with 2 => Truthy 77 | 3 => VdErr InvalidArgument | _ => VdNil end.
-Definition ex_events : list event := [EStep 0%Z; EMsg (3, 2); EStep 1%Z; EStep 2%Z].
+Definition ex_events : list event := [EStep 0%Z; EMsg (3, 2); EReport [0]; EStep 1%Z; EStep 2%Z].
 
 Definition ex_mb0 : list msg := [(4, 0); (2, 1)].
 Definition ex_st : proc :=
@@ -1633,7 +1829,7 @@ Lemma notify_result_keys p v st : keys_ok st -> keys_ok (notify_result true p v 
 Proof.
   intros (Hs & Hk). unfold notify_result. cbn [andb].
   assert (G : keys_ok (if negb (aw_has p (p_awaiting st)) then st
-                       else set_awaiting st (aw_insert p (Some v) (p_awaiting st)))).
+                       else set_awaiting (report [p] st) (aw_insert p (Some v) (p_awaiting st)))).
   { destruct (aw_has p (p_awaiting st)) eqn:E; cbn [negb]; [|split; auto].
     split; [exact Hs|]. cbn. intros q Hq. rewrite aw_has_insert in Hq.
     apply orb_true_iff in Hq. destruct Hq as [Hq|Hq]; auto. apply Nat.eqb_eq in Hq. subst q. auto. }
@@ -1658,6 +1854,8 @@ Proof.
   - pose proof (Hs1 s eq_refl) as Hsrc.
     destruct (match ss_receiving s with Some (r, m) => Some (verdict_of r m) | None => None end) as [[n| |e]|].
     3:{ inversion Hstep; subst. unfold keys_ok; cbn. rewrite Hsel. split; [exact Hs1|exact Hk1]. }
+    all: destruct (p_unreported (check_expired now st)) as [|u us];
+      [|inversion Hstep; subst; unfold keys_ok; cbn; rewrite Hsel; split; [exact Hs1|exact Hk1]].
     all: match type of Hstep with context [process_sources ?a ?b ?c ?d ?e ?f ?g ?h ?i] =>
            pose proof (process_sources_ok_sources a b c d e f g h i) as Hsr;
            destruct (process_sources a b c d e f g h i) end;
@@ -1680,7 +1878,7 @@ Qed.
 Lemma apply_event_keys ev st st' :
   keys_ok st -> apply_event true verdict_of written ev st = Val st' -> keys_ok st'.
 Proof.
-  intros HK H. destruct ev as [now|m|p v|p| |p r|tnow]; cbn [apply_event andb] in H.
+  intros HK H. destruct ev as [now|m|p v|p| |p r|tnow|rps]; cbn [apply_event andb] in H.
   - eapply step_keys; eauto.
   - inversion H; subst. destruct HK as (A & B). unfold wake. destruct (p_selecting _); split; auto.
   - inversion H; subst. apply notify_result_keys; auto.
@@ -1692,6 +1890,7 @@ Proof.
     all: try (destruct HK as (A & B); split; auto).
   - inversion H; subst. destruct (check_expired_fields tnow st) as (_ & Faw & Fsel & Fval & _).
     unfold keys_ok. rewrite Fsel, Faw, Fval. exact HK.
+  - inversion H; subst. exact HK.
 Qed.
 
 Lemma run_keys : forall evs st st',
@@ -1819,7 +2018,7 @@ Example ex_await_slice :
   step true no_verdict f45_written 0%Z (initial [] []) = Val f45_init /\
   p_awaiting f45_init = [(0, None)] /\ p_selecting f45_init = true /\
   (exists s, p_sel f45_init = Some s /\ ss_start s = None) /\
-  run true no_verdict f45_written [EActive; EStep 0%Z] f45_init = Val f45_state_fixed /\
+  run true no_verdict f45_written [EReport [0]; EActive; EStep 0%Z] f45_init = Val f45_state_fixed /\
   p_value f45_state_fixed = Some VNil /\ p_awaiting f45_state_fixed = [].
 Proof.
   split; [reflexivity|]. split; [vm_compute; reflexivity|]. repeat split.
@@ -1849,3 +2048,31 @@ Example ex_runnable_slice_may_end_with_due_timeout :
               p_queued st' = true /\ p_selecting st' = false /\
               exists s', p_sel st' = Some s' /\ ss_start s' = Some 7%Z /\ expired s' 7%Z = true.
 Proof. eexists. split; [vm_compute; reflexivity|]. repeat split. eexists. repeat split. Qed.
+
+(* F72, in the model: `! [p1, p3]`; p3 completes on the awaiter's worker while the await is in
+   flight (ELocal: direct notification, wakes the awaiter); p1 had completed long ago but its result
+   only comes with the snapshot.  The woken select parks again (p1 unreported); after the snapshot
+   (report of both, result of p1) it completes with p1's 11, not p3's 33. *)
+Definition f72_written : list source := [SrcProc 1; SrcProc 3].
+Definition f72_woken : proc :=
+  Eval vm_compute in
+    match run true no_verdict f72_written [EStep 0%Z; ELocal 3 (Some (VVal 33))] (initial [] []) with
+    | Val st => st | _ => initial [] [] end.
+Definition f72_final : proc :=
+  Eval vm_compute in
+    match run true no_verdict f72_written [EStep 1%Z; EReport [1; 3]; EResult 1 (VVal 11); EStep 2%Z] f72_woken with
+    | Val st => st | _ => initial [] [] end.
+
+Example ex_f72_reparks_then_first_source_wins :
+  run true no_verdict f72_written [EStep 0%Z; ELocal 3 (Some (VVal 33))] (initial [] []) = Val f72_woken /\
+  p_queued f72_woken = true /\ p_unreported f72_woken = [1] /\
+  aw_get 3 (p_awaiting f72_woken) = Some (Some (VVal 33)) /\ aw_get 1 (p_awaiting f72_woken) = Some None /\
+  (exists s, active 1%Z f72_woken s) /\
+  step true no_verdict f72_written 1%Z f72_woken = Val (set_flags f72_woken false true) /\
+  run true no_verdict f72_written [EStep 1%Z; EReport [1; 3]; EResult 1 (VVal 11); EStep 2%Z] f72_woken = Val f72_final /\
+  p_value f72_final = Some (VVal 11) /\ p_awaiting f72_final = [] /\ p_unreported f72_final = [].
+Proof.
+  split; [vm_compute; reflexivity|]. repeat split.
+  all: try (eexists; repeat split; reflexivity).
+  all: vm_compute; reflexivity.
+Qed.
